@@ -16,6 +16,7 @@
 (*       empty nothing                                                     *)
 (*       beg (\A) bol (^ multiline) end (\z) endz (\Z, $) eol ($ multi-    *)
 (*       line) start (\G) wb nwb (\b \B) ewb newb (ECMAScript \b \B)       *)
+(*       awb nawb (RE2 \b \B: ASCII word characters)                       *)
 (***************************************************************************)
 EXTENDS Integers, Sequences, FiniteSets, Unicode
 
@@ -76,8 +77,10 @@ AnchorOK(op, s, i, org) ==
     [] op = "nwb"   -> wl(IsWordCh) = wr(IsWordCh)
     [] op = "ewb"   -> wl(IsECMAWordCh) # wr(IsECMAWordCh)
     [] op = "newb"  -> wl(IsECMAWordCh) = wr(IsECMAWordCh)
+    [] op = "awb"   -> wl(AsciiWord) # wr(AsciiWord)          \* RE2: \b is an ASCII word boundary
+    [] op = "nawb"  -> wl(AsciiWord) = wr(AsciiWord)
 
-IsAnchor(op) == op \in {"beg","bol","end","endz","eol","start","wb","nwb","ewb","newb"}
+IsAnchor(op) == op \in {"beg","bol","end","endz","eol","start","wb","nwb","ewb","newb","awb","nawb"}
 
 \* ---------------------------------------------------------------- captures
 NumGroups(p) == LET gs == {p[k].g : k \in {j \in 1..Len(p) : p[j].op = "grp"}} IN
